@@ -353,6 +353,13 @@ fn check_step(p: &Pre, m: &Machine, out: &Outcome, obs: &Tree, stats: &EntryStat
             if s.instructions_run != p.instrs { bad.push(format!("instructions_run {}->{}", p.instrs, s.instructions_run)); }
             if s.frame_stack.len() as usize != p.flen + 1 { bad.push(format!("frame depth {}->{}", p.flen, s.frame_stack.len())); }
             let (a1, a2) = (sp0.wrapping_sub(1), sp0.wrapping_sub(2));
+            let vaddr = 0x100 + v as u16;
+            if p.strict && (a1 == vaddr || a2 == vaddr) {
+                // the pushes overwrite the vector entry itself: the handler address (and whether the word there is
+                // initialised, which strict mode checks) is no longer the one of the snapshot; left to the model
+                stats.skipped_strict.fetch_add(1, Relaxed);
+                return None;
+            }
             if a1 >= 0xFE00 || a2 >= 0xFE00 {
                 // the pushes go to device / internal registers (a mapped PSR or MCR changes the rest of the
                 // entry): outside the reference; the model covers these states in the correspondence runs
